@@ -12,6 +12,10 @@ from . import xfuncs
 BIG_REGIONS = 1 << 30  # 1G, max input data size before we use threads <shrug>
 
 
+class _StopIterationInPool(Exception):
+    """Carries a StopIteration raised by a subcube job out of pool.map."""
+
+
 class xcube:
     """An N-dimensional contingency cube of NumPy arrays.
 
@@ -228,8 +232,21 @@ class xcube:
                     bucket["start"] = start
 
         if self.parallel:
+
+            def fill_in_pool(job):
+                # Inside map(), a StopIteration raised by the mapped function
+                # (say, by an interrupt callback built on next()) would be
+                # taken for the end of the input and silently dropped.
+                try:
+                    fill_one_cube(job)
+                except StopIteration as exc:
+                    raise _StopIterationInPool(exc)
+
             with closing(self.pool_class(self.poolsize)) as pool:
-                pool.map(fill_one_cube, self.product)
+                try:
+                    pool.map(fill_in_pool, self.product)
+                except _StopIterationInPool as box:
+                    raise box.args[0]
         else:
             # The only reason to _not_ multithread this is the extra overhead;
             # for example, if there's only one region anyway, or there are a handful
